@@ -220,5 +220,31 @@ fn validator_clock(vp_now: u64) -> (current_time: u32)
     current_time
 }
 
+// ---- the validation cache (expression-level extraction from ValidationCache::insert): how long a verdict is kept.
+//      C06: "... never yields Secure -- also not via a previously cached verdict -- and accepted records never carry a TTL
+//      longer than the remaining signature lifetime."  The verdict's `adjusted_ttl` is min(TTL, original TTL, expiration -
+//      now) at validation time (authenticated_ttl above); a Secure verdict may therefore be kept for at most that long. ----
+#[derive(Clone, Copy)] pub struct Duration { pub secs: u64 }
+impl Duration {
+    pub fn from_secs(s: u64) -> (r: Duration) ensures r.secs == s { Duration { secs: s } }
+    // Ord::clamp (panics if min > max: configuration precondition)
+    pub fn clamp(self, min: Duration, max: Duration) -> (r: Duration)
+        requires min.secs <= max.secs
+        ensures r.secs == (if self.secs < min.secs { min.secs } else if self.secs > max.secs { max.secs } else { self.secs })
+    { if self.secs < min.secs { min } else if self.secs > max.secs { max } else { self } }
+}
+pub struct VpCacheRecord { pub ttl: u32 }
+pub struct VpRrsetProof { pub proof: Proof, pub adjusted_ttl: Option<u32>, pub rrsig_index: Option<usize> }
+fn validation_cache_lifetime(first_record: &VpCacheRecord, verdict: &Result<VpRrsetProof, ProofError>, min: Duration, max: Duration) -> (r: Duration)
+    requires min.secs <= max.secs
+    ensures
+        // without configured bounds (min = 0, max = u64::MAX) a Secure verdict is not kept beyond the signature's remaining lifetime
+        (min.secs == 0 && max.secs == u64::MAX) ==> (match *verdict { Ok(p) => (match p.adjusted_ttl { Some(t) => r.secs <= t, None => true }), Err(_) => true }),
+{
+//%expr crates/net/src/dnssec/mod.rs :: impl ValidationCache :: insert :: "Duration::from_secs(first_record.ttl.into()).clamp(min, max)" .. "Duration::from_secs(first_record.ttl.into()).clamp(min, max)"
+//%sub1 "first_record.ttl.into()" => "first_record.ttl as u64" # R-shim: Into::into u32 -> u64
+//%end
+}
+
 } // verus!
 fn main() {}
